@@ -35,9 +35,13 @@ func routeInstances(tier string) []explore.Params {
 		return out
 	}
 	if tier == "many" { // C06: "any number of concurrently outstanding distinct IDs": 300 of them, both directions, both orders
+		// (per broker: 300 accepts waiting on the plugin's, 300 dialled streams parked on the host's)
 		var pats []string
 		for i := 0; i < 300; i++ {
-			pats = append(pats, []string{"hA0", "pA0", "hD0", "pD0"}[i%4])
+			pats = append(pats, "hA0")
+		}
+		for i := 0; i < 300; i++ {
+			pats = append(pats, "pD0")
 		}
 		return []explore.Params{{"pat": strings.Join(pats, ",")}}
 	}
